@@ -340,7 +340,14 @@ func propC18(r *Run) {
 		// ---- (b) reload is all-or-nothing ----
 		cfgA := GenConfig(r, "/srv/whawty/A")
 		w.makeDir(dirValid, cfgA.BaseDir, cfgA.SetMap()[cfgA.Default])
-		a, err := w.bootAgent(cfgA, "", "", "", "")
+		// the reload path also talks to the upgrade queue and to the hooks runner: all modes
+		upgMode := []string{"", "local"}[r.Choose("reload-upgrade-mode", 2)]
+		hooksDir := ""
+		if r.Choose("reload-with-hooks", 2) == 1 {
+			hooksDir = "/etc/whawty/hooks"
+			w.hooksSetup(hooksDir)
+		}
+		a, err := w.bootAgent(cfgA, upgMode, "", "", hooksDir)
 		if err != nil {
 			r.Fail("harness/boot", "%v", err)
 		}
@@ -352,8 +359,13 @@ func propC18(r *Run) {
 			var plan []*Call
 			for k := 0; k < 2+r.Choose("ncalls", 4); k++ {
 				c := &Call{Agent: a.idx, Via: "agent", User: "dana", Kind: "authenticate", PW: "dana-pw"}
-				if r.Choose("bg-kind", 3) == 0 {
+				switch r.Choose("bg-kind", 4) {
+				case 0:
 					c = &Call{Agent: a.idx, Via: "agent", User: "root", Kind: "list"}
+				case 3:
+					// a password change to the same password: whichever directory is in force when it is
+					// dispatched, later logins with "dana-pw" stay right
+					c = &Call{Agent: a.idx, Via: "agent", User: "dana", Kind: "update", PW: "dana-pw"}
 				}
 				plan = append(plan, c)
 			}
